@@ -66,15 +66,16 @@ class World:
 
 
 class Harness:
-    def __init__(self, kind):
+    def __init__(self, kind, aliases=False):
         self.kind = kind
-        self.config = {'world': kind}
+        self.aliases = aliases      # addAgent / removeAgent / getAgents (deprecated spellings) as entry points
+        self.config = {'world': kind, 'aliases': aliases}
         self.spec = WORLDS[kind]
         self.cn = Canon(drop={('DiscreteWorld', 'cells'), ('LineWorld', 'cells'), ('GridWorld', 'cells')})
         self.keys = [a[0] for a in AGENTS]
         self.idof = {a[0]: a[1] for a in AGENTS}
         self.ids = ['a1', 'a2', 'a3', 'zz']
-        self._ops = [['add', k] for k in self.keys] + [['remove', i] for i in self.ids] + [['complete']]
+        self._ops = [['look']] + [['add', k] for k in self.keys] + [['remove', i] for i in self.ids] + [['complete']]
 
     def fresh(self):
         w = World()
@@ -117,6 +118,9 @@ class Harness:
     def apply(self, w, op):
         env = w.model.environment
         res = self._resident_ids(w)
+        if op[0] == 'look':
+            self.check(w)          # reading is an operation too (whatever a read remembers must not show later)
+            return
         if op[0] == 'complete':
             w.model.complete()      # a finished model still has an environment: agents may leave and (re-)join
             return
@@ -127,7 +131,7 @@ class Harness:
                 self._rejected(w, lambda: env.add_agent(w.agents[key], *w.pos), Core.DuplicateAgentError,
                                f'add of {key} while id {aid} is resident')
             else:
-                env.add_agent(w.agents[key], *w.pos)
+                (env.addAgent if self.aliases and not self.spec else env.add_agent)(w.agents[key], *w.pos)
                 w.ref.append(key)
                 if self.spec:
                     p = w.agents[key][Envs.PositionComponent]
@@ -138,7 +142,7 @@ class Harness:
         else:
             aid = op[1]
             if aid in res:
-                env.remove_agent(aid)      # removing a present agent always succeeds
+                (env.removeAgent if self.aliases else env.remove_agent)(aid)      # removing a present agent always succeeds
                 w.ref.remove(res[aid])
                 if self.spec and Envs.PositionComponent in w.agents[res[aid]]:
                     raise Violation(f'{res[aid]} still carries a position after leaving the world')
@@ -177,7 +181,7 @@ class Harness:
             raise Violation('iteration order differs from joining order', expected=list(w.ref),
                             observed=[self._key(w, a) for a in it])
         for attempt in range(3):
-            ga = env.get_agents()
+            ga = env.getAgents() if self.aliases else env.get_agents()
             if not isinstance(ga, list) or len(ga) != len(exp) or any(a is not b for a, b in zip(ga, exp)):
                 raise Violation('get_agents() differs from the live agents in joining order'
                                 + (' (after the caller modified an earlier listing / called shuffle)' if attempt else ''),
@@ -189,7 +193,9 @@ class Harness:
                 ga.append(None)
                 del ga[:1]
             else:
+                st = w.model.random.getstate()
                 env.shuffle()
+                w.model.random.setstate(st)      # the read-back must not advance the model's generator
         if len(env) != len(exp) or [a for a in env] != exp:
             raise Violation('len / iteration changed after listings were modified or shuffled')
         res = self._resident_ids(w)
@@ -281,10 +287,10 @@ def _diff(a, b):
 
 def run(ctx):
     kinds = QUICK if ctx.tier == 'quick' else list(WORLDS)
-    for kind in kinds:
-        h = Harness(kind)
-        r = hbfs.explore(ctx, h, kind, max_depth=30, procs=ctx.procs)
-        ctx.leg(kind, **r)
+    for kind, al in [(k, False) for k in kinds] + [('plain', True), ('grid_3x2', True)]:
+        h = Harness(kind, al)
+        r = hbfs.explore(ctx, h, kind + ('+deprecated_entry_points' if al else ''), max_depth=30, procs=ctx.procs)
+        ctx.leg(kind + ('+deprecated_entry_points' if al else ''), **r)
         if not r.get('fixpoint'):
             ctx.cap(f'{kind}: fixpoint not reached')
         if ctx.violations:
@@ -292,4 +298,4 @@ def run(ctx):
 
 
 def replay(case):
-    hbfs.replay_case(Harness(case['config']['world']), case)
+    hbfs.replay_case(Harness(case['config']['world'], case['config'].get('aliases', False)), case)
